@@ -1,5 +1,5 @@
 #!/bin/sh
-export RUSTUP_TOOLCHAIN="${RUSTUP_TOOLCHAIN:-stable}"   # do not depend on rustup's default-toolchain setting
+. "$(cd "$(dirname "$0")" && pwd)/env.sh"
 # Builds c2patool from /repo's working tree into /verif/.build/cli (never into /repo/target).
 # Prints the path of the binary on the last line of stdout.  A no-op when the build is fresh.
 # Debug profile on purpose: the release profile of /repo uses thin LTO (several minutes per rebuild);
